@@ -72,6 +72,8 @@ def showProof (p : List (Nat × Nat)) : String :=
 
 /-- alter a path: `sib k v` replaces sibling `k`, `dir k` flips direction bit `k` -/
 def alter (p : List (Nat × Nat)) (kind : String) (k : Nat) (v : Nat) : List (Nat × Nat) :=
+  -- paths of the wrong length: the last element dropped / one more element appended
+  if kind == "cut" then p.dropLast else if kind == "ext" then p ++ [(v, 0)] else
   p.zipIdx.map (fun (x, i) =>
     if i = k then (if kind == "sib" then (v, x.2) else if kind == "dir" then (x.1, 1 - x.2) else x) else x)
 
